@@ -15,6 +15,7 @@ pub mod c07;
 pub mod c08;
 pub mod c09;
 pub mod c10;
+pub mod c11;
 pub mod c12;
 pub mod c14;
 pub mod c15;
@@ -106,6 +107,7 @@ pub fn run_check(id: &str, tier: &str) -> i32 {
         "C08" => c08::run(tier),
         "C09" => c09::run(tier),
         "C10" => c10::run(tier),
+        "C11" => c11::run(tier),
         "C12" => c12::run_c12(tier),
         "C13" => c12::run_c13(tier),
         "C14" => c14::run(tier),
@@ -144,6 +146,7 @@ pub fn run_replay(path: &str) -> i32 {
         "C08" => c08::replay(&f),
         "C09" => c09::replay(&f),
         "C10" => c10::replay(&f),
+        "C11" => c11::replay(&f),
         "C12" => c12::replay_c12(&f),
         "C13" => c12::replay_c13(&f),
         "C14" => c14::replay(&f),
